@@ -125,6 +125,14 @@ Compare(g, op, a, b) ==
     ELSE IF b.t = "ns" THEN CompareNS1(g, Flip(op), b.v, a)
     ELSE CompareScalar(g, op, a, b)
 
+\* every number a comparison would look at lies in the exact model
+NumsOf(g, v) ==
+    CASE v.t = "ns" -> {StrToNum(StringValue(g.d, i)) : i \in v.v}
+      [] v.t = "s"  -> {StrToNum(v.v)}
+      [] v.t = "n"  -> {v.v}
+      [] OTHER      -> {}
+CmpDefined(g, a, b) == \A x \in NumsOf(g, a) \cup NumsOf(g, b) : ~IsInx(x)
+
 Arith(op, x, y) ==
     CASE op = "+"   -> NumAdd(x, y)
       [] op = "-"   -> NumSub(x, y)
@@ -236,13 +244,46 @@ Eval(e, g, c) ==
             ELSE LET r == Eval(e.r, g, c) IN
                  IF Bad(r) THEN VErr("outside model")
                  ELSE IF e.op \in BoolOps THEN VB(ToBool(r))
-                 ELSE IF e.op \in CmpOps THEN VB(Compare(g, e.op, l, r))
+                 ELSE IF e.op \in CmpOps THEN (IF CmpDefined(g, l, r) THEN VB(Compare(g, e.op, l, r)) ELSE VErr("outside model"))
                  ELSE VN(Arith(e.op, ToNum(g, l), ToNum(g, r)))
       [] e.t = "neg"    -> LET v == Eval(e.e, g, c) IN IF Bad(v) THEN VErr("outside model") ELSE VN(NumNeg(ToNum(g, v)))
       [] e.t = "lit"    -> VS(e.s)
       [] e.t = "num"    -> VN(e.v)
       [] e.t = "call"   -> LET a == EvalArgs(g, e.args, c)
                            IN IF AnyBad(a) THEN VErr("outside model") ELSE CallFn(g, e.f, a, c)
+
+(***************************************************************************)
+(* Tainted(e, g, c): does evaluating e at c look at a value outside the    *)
+(* exact model anywhere - also inside predicates, for every candidate?     *)
+(* Computed bottom-up, so that Eval is only ever applied to expressions    *)
+(* whose parts are clean.  Conformance checks skip tainted cases.          *)
+(***************************************************************************)
+RECURSIVE Tainted(_, _, _), TaintedSteps(_, _, _), TaintedPreds(_, _, _), TaintedAt(_, _, _, _), TaintedArgs(_, _, _)
+TaintedAt(g, s, p, i) ==       \* predicate p over the candidate sequence s, from index i
+    IF i > Len(s) THEN FALSE
+    ELSE Tainted(p, g, [n |-> s[i], pos |-> i, size |-> Len(s)]) \/ TaintedAt(g, s, p, i + 1)
+TaintedPreds(g, s, preds) ==
+    IF preds = <<>> THEN FALSE
+    ELSE TaintedAt(g, s, Head(preds), 1) \/ TaintedPreds(g, KeepFrom(g, s, Head(preds), 1), Tail(preds))
+TaintedSteps(g, steps, S) ==
+    IF steps = <<>> THEN FALSE
+    ELSE LET st == Head(steps) IN
+         \/ \E n \in S : TaintedPreds(g, FilterSeq(g, st.ax, st.nt, AxisSeq(g.d, st.ax, n)), st.preds)
+         \/ TaintedSteps(g, Tail(steps), UNION {SeqToSet(StepSeq(g, st, n)) : n \in S})
+TaintedArgs(g, args, c) == IF args = <<>> THEN FALSE ELSE Tainted(Head(args), g, c) \/ TaintedArgs(g, Tail(args), c)
+Tainted(e, g, c) ==
+    CASE e.t = "path"   -> TaintedSteps(g, e.steps, IF e.abs THEN {1} ELSE {c.n})
+      [] e.t = "filter" ->
+            \/ Tainted(e.e, g, c)
+            \/ LET b == Eval(e.e, g, c) IN
+               b.t = "ns" /\ (\/ TaintedPreds(g, Asc(g.d, b.v), e.preds)
+                              \/ TaintedSteps(g, e.steps, SeqToSet(ApplyPreds(g, Asc(g.d, b.v), e.preds))))
+      [] e.t = "union"  -> Tainted(e.l, g, c) \/ Tainted(e.r, g, c)
+      [] e.t = "seqstep" -> Tainted(e.base, g, c)
+      [] e.t = "bin"    -> Tainted(e.l, g, c) \/ Tainted(e.r, g, c) \/ Bad(Eval(e, g, c))
+      [] e.t = "neg"    -> Tainted(e.e, g, c) \/ Bad(Eval(e, g, c))
+      [] e.t = "call"   -> TaintedArgs(g, e.args, c) \/ Bad(Eval(e, g, c))
+      [] OTHER          -> FALSE
 
 \* node-set result as a set / in document order
 EvalSet(e, g, n) == Eval(e, g, Ctx(n)).v
